@@ -39,6 +39,12 @@ type boardSession struct {
 	hashToKey map[board.ZobristHash]rules.Pos
 
 	pops, forks, pushes int
+
+	// observation discipline of this session: a getter that is asked after every single operation can
+	// never show a stale memo (asking refreshes it). In a "lazy" session each group of getters is asked
+	// only now and then, and the moved-pieces query with one limit only.
+	lazyObs   bool
+	lazyLimit int
 }
 
 // BoardSession runs one S-B board session from the tape and evaluates the oracles of the given properties.
@@ -96,6 +102,11 @@ func (s *boardSession) run() {
 		s.res.Probe("quiet-walk")
 	}
 
+	s.lazyObs = t.Chance(1, 3)
+	s.lazyLimit = []int{1, 2, 3, 10, 1000}[t.Choose(5)]
+	if s.lazyObs {
+		s.res.Probe("lazy-observer")
+	}
 	s.zt = board.NewZobristTable(ztSeed)
 	s.start = Starts[si].FEN
 	if quietAfter < 0 && t.Chance(1, 5) {
@@ -724,46 +735,63 @@ func (s *boardSession) checkC08(o *live, operated bool, op string) bool {
 			o.id, movesText(o.g.Moves), o.lastOp, op, operated, what, a, b)
 		return false
 	}
-	if *x.Position() != *t.Position() {
-		return bad("Position", x.Position(), t.Position())
-	}
-	if x.Turn() != t.Turn() {
-		return bad("Turn", x.Turn(), t.Turn())
-	}
-	if x.Hash() != t.Hash() {
-		return bad("Hash", x.Hash(), t.Hash())
-	}
-	if x.NoProgress() != t.NoProgress() {
-		return bad("NoProgress", x.NoProgress(), t.NoProgress())
-	}
-	if x.Ply() != t.Ply() {
-		return bad("Ply", x.Ply(), t.Ply())
-	}
-	if x.FullMoves() != t.FullMoves() {
-		return bad("FullMoves", x.FullMoves(), t.FullMoves())
-	}
-	for c := board.ZeroColor; c < board.NumColors; c++ {
-		if x.HasCastled(c) != t.HasCastled(c) {
-			return bad(fmt.Sprintf("HasCastled(%v)", c), x.HasCastled(c), t.HasCastled(c))
+	ask := func() bool { return !s.lazyObs || s.t.Chance(1, 2) }
+	if ask() {
+		if *x.Position() != *t.Position() {
+			return bad("Position", x.Position(), t.Position())
+		}
+		if x.Turn() != t.Turn() {
+			return bad("Turn", x.Turn(), t.Turn())
+		}
+		if x.Hash() != t.Hash() {
+			return bad("Hash", x.Hash(), t.Hash())
 		}
 	}
-	xm, xok := x.LastMove()
-	tm, tok := t.LastMove()
-	if xm != tm || xok != tok {
-		return bad("LastMove", xm, tm)
-	}
-	xm, xok = x.SecondToLastMove()
-	tm, tok = t.SecondToLastMove()
-	if xm != tm || xok != tok {
-		return bad("SecondToLastMove", xm, tm)
-	}
-	for _, k := range []int{1, 2, 1000} {
-		if x.HasMoved(k) != t.HasMoved(k) {
-			return bad(fmt.Sprintf("HasMoved(%d)", k), x.HasMoved(k), t.HasMoved(k))
+	if ask() {
+		if x.NoProgress() != t.NoProgress() {
+			return bad("NoProgress", x.NoProgress(), t.NoProgress())
+		}
+		if x.Ply() != t.Ply() {
+			return bad("Ply", x.Ply(), t.Ply())
+		}
+		if x.FullMoves() != t.FullMoves() {
+			return bad("FullMoves", x.FullMoves(), t.FullMoves())
 		}
 	}
-	if a, b := stripResult(x.String()), stripResult(t.String()); a != b {
-		return bad("String()", a, b)
+	if ask() {
+		for c := board.ZeroColor; c < board.NumColors; c++ {
+			if x.HasCastled(c) != t.HasCastled(c) {
+				return bad(fmt.Sprintf("HasCastled(%v)", c), x.HasCastled(c), t.HasCastled(c))
+			}
+		}
+	}
+	if ask() {
+		xm, xok := x.LastMove()
+		tm, tok := t.LastMove()
+		if xm != tm || xok != tok {
+			return bad("LastMove", xm, tm)
+		}
+		xm, xok = x.SecondToLastMove()
+		tm, tok = t.SecondToLastMove()
+		if xm != tm || xok != tok {
+			return bad("SecondToLastMove", xm, tm)
+		}
+	}
+	if ask() {
+		limits := []int{1, 2, 1000}
+		if s.lazyObs {
+			limits = []int{s.lazyLimit}
+		}
+		for _, k := range limits {
+			if x.HasMoved(k) != t.HasMoved(k) {
+				return bad(fmt.Sprintf("HasMoved(%d)", k), x.HasMoved(k), t.HasMoved(k))
+			}
+		}
+	}
+	if ask() {
+		if a, b := stripResult(x.String()), stripResult(t.String()); a != b {
+			return bad("String()", a, b)
+		}
 	}
 	if o.adjudicated {
 		return true
